@@ -289,6 +289,11 @@ def gen_history(rng, faults=(1, 2, 3, 4, 5, 6, 7)):
     versions = {f: [docs] for f, docs in files.items()}
     tree = {f: 1 for f in files}
     clis = cli_variants(rng, base_cli, bl, al)
+    dirs = sorted({os.path.dirname(f) or "." for f in files})
+    if len(dirs) > 1 and rng.random() < 0.5:
+        # local mode (its own ninja file and cache, keyed by the start directory) next to global runs
+        for _ in range(3):
+            clis.append(dict(rng.choice(clis), local=rng.choice(dirs)))
     ops = []
     def scen():
         sc = {}
